@@ -119,6 +119,7 @@ class ClassInfo:
         self.node = node
         self.name = node.name
         self.methods: Dict[str, FuncInfo] = {}
+        self.inlined_methods: Dict[str, FuncInfo] = {}   # helpers analysed as part of their callers (sa/inline.py)
         self.class_attrs: Dict[str, ast.AST] = {}
         # attribute name -> annotation expression (from `self.x: T = ...` in any method or class-level AnnAssign)
         self.attr_ann: Dict[str, ast.AST] = {}
@@ -150,6 +151,7 @@ class Program:
             raise AnalysisError('no python modules found under %s' % self.root)
         self._index()
         self.inlined_helpers: set = set()
+        self.inline_prefixes: set = set()   # '<helper>_<n>__' prefixes given to inlined helpers' locals
         if inline:
             from .inline import Inliner
             Inliner(self).run()
@@ -360,6 +362,8 @@ class Program:
         for c in self.mro(ci):
             if name in c.methods:
                 return c.methods[name]
+            if name in c.inlined_methods:
+                return c.inlined_methods[name]
         return None
 
     def lookup_class_attr(self, ci: ClassInfo, name: str) -> Optional[Tuple[ClassInfo, ast.AST]]:
